@@ -562,7 +562,10 @@ pub mod value {
                 Variant(v) => {
                     write!(f, "variant {{ ")?;
                     if v.0.val == Null {
-                        write!(f, "{}", v.0.id)?;
+                        match &v.0.id {
+                            Label::Named(id) => write!(f, "{}", ident_string(id))?,
+                            id => write!(f, "{id}")?,
+                        }
                     } else {
                         write!(f, "{:?}", v.0)?;
                     }
